@@ -107,6 +107,21 @@ Theorem groups_become_attributes : forall bin attr ms (ps : vprops),
 Proof. exact groups_become_attributes_proof. Qed.
 Print Assumptions groups_become_attributes.
 
+(* ... and the attribute row of vertex i holds exactly the members' values of record i.  binary: *)
+Theorem group_values_are_record_values : forall e attr ms (ps : vprops) vals b,
+  vec_reader true attr ms ps = Some b -> record_ok ps vals ->
+  read_bin_row e b (enc_record_bin e (map fst ps) vals) =
+  (if vertex_ty_ok (b_ty b) then mapR (member_value ps vals (b_ty b)) ms else Err EDeclared).
+Proof. exact group_reads_members_bin_proof. Qed.
+Print Assumptions group_values_are_record_values.
+
+(* ascii: the same values for uchar (divided by 255 as in binary files), int, float and double groups *)
+Theorem group_values_are_record_values_ascii : forall attr ms (ps : vprops) vals b,
+  vec_reader false attr ms ps = Some b -> record_ok ps vals -> vertex_ty_ok (b_ty b) = true ->
+  read_ascii_row b (enc_record_ascii (map fst ps) vals) = mapR (member_value ps vals (b_ty b)) ms.
+Proof. exact group_reads_members_ascii_proof. Qed.
+Print Assumptions group_values_are_record_values_ascii.
+
 (* colour groups: the four-member reader when red, green, blue and alpha share one type, otherwise the RGB reader
    alone - independent of where alpha is declared (the behaviour after fixes 04b414a and 473a5bb) *)
 Theorem colour_group_fallback : forall bin g r gn b a (ps : vprops),
